@@ -385,7 +385,7 @@ class ClassInfo:
 
 
 class Module:
-    def __init__(self, name: str, path: str, rel: str, source: str, unstable_attrs: Optional[set] = None, external_names: Optional[set] = None) -> None:
+    def __init__(self, name: str, path: str, rel: str, source: str, unstable_attrs: Optional[set] = None, external_names: Optional[set] = None, effects: Optional[dict] = None) -> None:
         self.name = name
         self.path = path
         self.rel = rel
@@ -401,7 +401,7 @@ class Module:
         from .lp import propagate_locals, baseline_keep, unroll_literal_loops
 
         self.unrolled_loops = unroll_literal_loops(tree)
-        self.propagated_locals, self.propagated_names = propagate_locals(tree, baseline_keep(rel), unstable_attrs)
+        self.propagated_locals, self.propagated_names = propagate_locals(tree, baseline_keep(rel), unstable_attrs, effects)
         if self.propagated_locals or self.unrolled_loops:
             tree = ast.fix_missing_locations(_Canonical().visit(tree))
         self.tree = tree
@@ -463,13 +463,17 @@ class Program:
         self.unstable_attrs = unstable
         from .inl import names_used
 
-        used = {modrel: names_used(ast.parse(src, filename=full)) for modrel, full, rel, src in sources}
+        from .lp import routine_effects
+
+        parsed = {modrel: ast.parse(src, filename=full) for modrel, full, rel, src in sources}
+        effects = routine_effects(list(parsed.values()))
+        used = {modrel: names_used(t) for modrel, t in parsed.items()}
         for modrel, full, rel, src in sources:
             ext: set = set()
             for other, names in used.items():
                 if other != modrel:
                     ext |= names
-            self.modules[modrel] = Module(modrel, full, rel, src, unstable, ext)
+            self.modules[modrel] = Module(modrel, full, rel, src, unstable, ext, effects)
         if shadows:
             raise AnalysisError(
                 'compiled extension(s) shadow analysed modules; the executed program is not the analysed one: '
